@@ -7,7 +7,7 @@ import (
 )
 
 var (
-	methodPool = []string{"Get", "Put", "Do", "List", "Find", "Update", "Delete", "Open", "Send", "Recv", "Apply", "Visit", "Handle", "Load", "Save", "Run", "Watch", "Lookup", "Count", "Each"}
+	methodPool = []string{"Get", "Put", "Do", "List", "Find", "Update", "Delete", "Open", "Send", "Recv", "Apply", "Visit", "Handle", "Load", "Save", "Run", "Watch", "Lookup", "Count", "Each", "Id", "ID", "Url", "Json", "Http"}
 	plainNames = []string{"a", "key", "value", "name", "count", "opts", "req", "data", "item", "idx", "src", "dst", "when", "p", "q", "x", "y"}
 	// names that collide with names moq generates or resolves
 	collideNames = []string{"s", "s1", "s2", "s3", "n", "n1", "n2", "err", "err1", "ctx", "b", "f", "fn", "v", "val", "in", "out", "ifaceVal", "sOut", "errOut", "nOut", "sMoqParam", "errMoqParam", "sync", "fmt", "mocked", "lock", "calls", "i", "ok", "t"}
@@ -38,6 +38,10 @@ type tctx struct {
 
 // genType produces a random type.
 func (b *builder) genType(c tctx) *T {
+	if !c.comparable && b.chance(0.02) {
+		// a record of 2 KiB by value
+		return &T{Kind: KArray, ArrLen: "256", Elem: basic("uint64")}
+	}
 	if c.depth <= 0 || b.chance(0.45) {
 		return b.genLeaf(c)
 	}
@@ -520,6 +524,47 @@ func (b *builder) makeIfaces() {
 	}
 }
 
+// addFixed appends a fixed set of hand-picked shapes to every tree: they guarantee that shapes known to matter
+// (result-less variadic ...any, method names that collapse under the export rule, scalar-only records, records
+// of 2 KiB, method-less interfaces, single-result methods) are present in every corpus and runtime batch.
+func (b *builder) addFixed() {
+	t := b.t
+	file := 0
+	str, i64, in, bl, er := basic("string"), basic("int64"), basic("int"), basic("bool"), basic("error")
+	anyT := basic("any")
+	emptyIface := &T{Kind: KIface}
+	mk := func(name string, ms ...Method) {
+		t.Ifaces = append(t.Ifaces, &Iface{Name: name, File: file, Exportable: true, Methods: ms, Tags: []string{"fixed"}})
+	}
+	mk("FxLogger",
+		Method{Name: "Printf", Params: []Param{{"format", str}, {"args", slice(emptyIface)}}, Variadic: true},
+		Method{Name: "Log", Params: []Param{{"args", slice(anyT)}}, Variadic: true},
+		Method{Name: "Sprintf", Params: []Param{{"format", str}, {"a", slice(anyT)}}, Results: []Param{{"", str}}, Variadic: true})
+	mk("FxVariadic",
+		Method{Name: "Fields", Params: []Param{{"", slice(str)}}, Variadic: true},
+		Method{Name: "Sum", Params: []Param{{"base", in}, {"more", slice(in)}}, Results: []Param{{"", in}}, Variadic: true})
+	mk("FxResource",
+		Method{Name: "ID", Results: []Param{{"", str}}},
+		Method{Name: "Id", Results: []Param{{"", str}}},
+		Method{Name: "URL", Params: []Param{{"id", str}}, Results: []Param{{"", str}, {"", er}}},
+		Method{Name: "Url", Params: []Param{{"Id", str}}, Results: []Param{{"", str}, {"", er}}},
+		Method{Name: "Close", Results: []Param{{"", er}}})
+	mk("FxMeter",
+		Method{Name: "Set", Params: []Param{{"series", i64}, {"value", i64}}},
+		Method{Name: "Inc", Params: []Param{{"n", in}}},
+		Method{Name: "Flag", Params: []Param{{"on", bl}}, Results: []Param{{"", bl}}})
+	mk("FxPager",
+		Method{Name: "WritePage", Params: []Param{{"no", basic("uint64")}, {"page", &T{Kind: KArray, ArrLen: "256", Elem: basic("uint64")}}}},
+		Method{Name: "ReadPage", Params: []Param{{"no", basic("uint64")}}, Results: []Param{{"", &T{Kind: KArray, ArrLen: "256", Elem: basic("uint64")}}, {"", er}}})
+	mk("FxEmpty")
+	mk("FxMarker")
+	mk("FxSingle",
+		Method{Name: "Next", Results: []Param{{"", in}}},
+		Method{Name: "Len", Params: []Param{{"s", str}}, Results: []Param{{"", in}}},
+		Method{Name: "Pair", Results: []Param{{"", in}, {"", er}}},
+		Method{Name: "None"})
+}
+
 func (b *builder) genTParams(i *Iface) {
 	names := []string{"T", "K", "V", "S", "E", "TKey", "Elem"}
 	if b.hz.LowerTypeParam {
@@ -594,6 +639,23 @@ func (b *builder) genTParams(i *Iface) {
 			i.NeedsSkipEnsure = true
 		}
 		tp.CKind = kind
+		switch kind {
+		case "any":
+			tp.Arg = basic([]string{"int", "string", "float64"}[k%3])
+			if b.chance(0.2) {
+				tp.Arg = ptr(local(l.Struct))
+			}
+		case "method", "stdmethod", "hybrid", "namedunion":
+			tp.Arg = local(l.Key)
+		case "union", "ordered":
+			tp.Arg = basic("int")
+		case "depunion", "comparable":
+			tp.Arg = basic("string")
+		case "depmethod":
+			tp.Arg = pkgT(tp.Constraint.Pkg, tp.Constraint.Pkg.Num)
+		case "tildeSliceOf":
+			tp.Arg = slice(i.TParams[k-1].Arg)
+		}
 		i.TParams = append(i.TParams, tp)
 	}
 }
